@@ -26,6 +26,10 @@ STUB_ALL = "--stub-all" in sys.argv
 # (file, kernel, parameters, result, arrays stored into)
 KERNELS = [
     ("pynndescent_.py", "degree_prune_internal", dict(indptr="arrI", data="arrP", max_degree="Int"), "Unit", ["data"]),
+    # `data`, `dist`, `rng_state`, `prune_probability` are only used through `dist(data[a], data[b])` and
+    # `tau_rand(local_rng_state) < prune_probability`, which become the uninterpreted `DivParams.dist a b` / `DivParams.draw i c`
+    ("pynndescent_.py", "diversify", dict(indices="arr2I", distances="arr2P", data="arr2P", dist="Unit", rng_state="arrI", prune_probability="P"),
+     ("arr2I", "arr2P"), ["indices", "distances"]),
 ]
 
 
@@ -49,8 +53,60 @@ def view_unsafe(stmts, v, a, stored=False):
     return False, stored
 
 
+class _Draws(ast.NodeTransformer):
+    """`local_rng_state = rng_state + i` -> `draw_cnt = 0`;  `if tau_rand(local_rng_state) < prune_probability: B` ->
+    `draw_now = drawOutcome(i, draw_cnt); draw_cnt += 1; if draw_now: B` (the generator is private to the row and is consulted
+    exactly at these tests: its outcomes are the uninterpreted stream `DivParams.draw row counter`)"""
+    def __init__(self):
+        self.row = None
+
+    def visit_Assign(self, n):
+        if len(n.targets) == 1 and isinstance(n.targets[0], ast.Name) and n.targets[0].id == "local_rng_state":
+            if not (isinstance(n.value, ast.BinOp) and isinstance(n.value.op, ast.Add) and ast.unparse(n.value.left) == "rng_state"
+                    and isinstance(n.value.right, ast.Name)):
+                raise Unsupported("local_rng_state = " + ast.unparse(n.value))
+            self.row = n.value.right.id
+            return ast.Assign(targets=[ast.Name(id="draw_cnt", ctx=ast.Store())], value=ast.Constant(value=0))
+        return n
+
+    def visit_If(self, n):
+        self.generic_visit(n)
+        if ast.unparse(n.test) == "tau_rand(local_rng_state) < prune_probability" and self.row is not None and not n.orelse:
+            return [ast.Assign(targets=[ast.Name(id="draw_now", ctx=ast.Store())],
+                               value=ast.Call(func=ast.Name(id="drawOutcome", ctx=ast.Load()),
+                                              args=[ast.Name(id=self.row, ctx=ast.Load()), ast.Name(id="draw_cnt", ctx=ast.Load())], keywords=[])),
+                    ast.AugAssign(target=ast.Name(id="draw_cnt", ctx=ast.Store()), op=ast.Add(), value=ast.Constant(value=1)),
+                    ast.If(test=ast.Name(id="draw_now", ctx=ast.Load()), body=n.body, orelse=[])]
+        return n
+
+
+def is_dist_call(e):
+    return isinstance(e, ast.Call) and isinstance(e.func, ast.Name) and e.func.id == "dist" and len(e.args) == 2 and not e.keywords \
+        and all(isinstance(a, ast.Subscript) and isinstance(a.value, ast.Name) and a.value.id == "data"
+                and not isinstance(a.slice, (ast.Slice, ast.Tuple)) for a in e.args)
+
+
 class GFn(Fn):
+    def __init__(self, fdef, ptypes, ret):
+        if fdef.name == "diversify":
+            fdef = _Draws().visit(fdef)
+            ast.fix_missing_locations(fdef)
+            for n in ast.walk(fdef):
+                if isinstance(n, ast.Name) and n.id in ("local_rng_state", "tau_rand", "rng_state", "prune_probability"):
+                    raise Unsupported("generator used other than in `tau_rand(local_rng_state) < prune_probability`")
+                if isinstance(n, ast.Name) and n.id in ("data", "dist") and isinstance(n.ctx, ast.Load):
+                    pass
+        super().__init__(fdef, ptypes, ret)
+
     def ty(self, e, env):
+        if isinstance(e, ast.Name) and e.id == "FLOAT32_EPS": return "P"
+        if isinstance(e, ast.Attribute) and ast.unparse(e) == "np.inf": return "P"
+        if is_dist_call(e) and all(self.ty(a.slice, env) == "Int" for a in e.args): return "P"
+        if isinstance(e, ast.Call) and isinstance(e.func, ast.Name) and e.func.id == "drawOutcome": return "Bool"
+        if isinstance(e, ast.List) and len(e.elts) == 1:
+            t = self.ty(e.elts[0], env)
+            if t == "Int": return "arrI"
+            if t == "P": return "arrP"
         if isinstance(e, ast.Subscript) and isinstance(e.value, ast.Call) and ast.unparse(e.value.func) == "np.sort" \
                 and len(e.value.args) == 1 and not e.value.keywords and self.ty(e.value.args[0], env) == "arrP" \
                 and not isinstance(e.slice, (ast.Slice, ast.Tuple)):
@@ -58,12 +114,25 @@ class GFn(Fn):
         return super().ty(e, env)
 
     def ex(self, e, env):
+        if isinstance(e, ast.Name) and e.id == "FLOAT32_EPS": return "(DivParams.eps : P)"
+        if isinstance(e, ast.Attribute) and ast.unparse(e) == "np.inf": return "(DivParams.top : P)"
+        if is_dist_call(e) and self.ty(e, env) == "P":
+            return "(DivParams.dist %s %s : P)" % (self.ex(e.args[0].slice, env), self.ex(e.args[1].slice, env))
+        if isinstance(e, ast.Call) and isinstance(e.func, ast.Name) and e.func.id == "drawOutcome":
+            return "(DivParams.draw P %s %s)" % (self.ex(e.args[0], env), self.ex(e.args[1], env))
+        if isinstance(e, ast.List) and len(e.elts) == 1 and self.ty(e, env) in ("arrI", "arrP"):
+            return "#[%s]" % self.ex(e.elts[0], env)
         if isinstance(e, ast.Subscript) and isinstance(e.value, ast.Call) and ast.unparse(e.value.func) == "np.sort" and self.ty(e, env) == "P":
             return "(← rd (SortFn.sortArr %s) %s)" % (self.ex(e.value.args[0], env), self.ex(e.slice, env))
         if isinstance(e, ast.Subscript) and isinstance(e.slice, ast.Slice) and e.slice.lower is not None and e.slice.upper is not None \
                 and e.slice.step is None and isinstance(e.value, ast.Name) and self.ty(e.value, env) in ("arrP", "arrI"):
             return "(← slice %s %s %s)" % (e.value.id, self.ex(e.slice.lower, env), self.ex(e.slice.upper, env))
         return super().ex(e, env)
+
+    def cond(self, e, env, then, els, ind):
+        if isinstance(e, ast.Name) and env.get(e.id) == "Bool":
+            return [ind + "if %s then" % e.id] + then(ind + "  ") + [ind + "else"] + els(ind + "  ")
+        return super().cond(e, env, then, els, ind)
 
     def block(self, stmts, env, ctx, ind):
         if stmts:
@@ -93,7 +162,16 @@ ascending rearrangement of its argument, the driver instantiates it with a sort)
 class SortFn (P : Type) where
   sortArr : Array P → Array P
 
-variable {{P : Type}} [LT P] [DecidableLT P] [OfNat P 0] [SortFn P]
+/-- the UNINTERPRETED parameters of `diversify`: `FLOAT32_EPS`, `np.inf`, the distance between two points given by their
+numbers (`dist(data[a], data[b])`: the loads from `data` are not translated), and the outcomes of the generator tests
+`tau_rand(rng_state + i) < prune_probability` of row `i`, in the order they are evaluated -/
+class DivParams (P : Type) where
+  eps : P
+  top : P
+  dist : Int → Int → P
+  draw : Int → Int → Bool
+
+variable {{P : Type}} [LT P] [DecidableLT P] [OfNat P 0] [SortFn P] [DivParams P]
 
 '''
 
